@@ -247,4 +247,66 @@ def c14(tier, seed, work):
     return rep
 
 
-PLANS = {"C02": c02, "C05": c05, "C03": c03, "C04": c04, "C13": c13, "C06": c06, "C14": c14}
+def c11(tier, seed, work):
+    rep = Report("C11", tier, seed)
+    n = 12 if tier == "thorough" else 6
+    common = dict(view=None, emit=None, invariants=["EmitInv", "Sound"])
+    tour_stage(rep, work, "ranges", "MC_Range", dict(N=n, CfgName="plain"), ALL4, **common)
+    tour_stage(rep, work, "ranges-single", "MC_Range", dict(N=n, CfgName="single"), ["singlemem", "singleos"], **common)
+    rep.assumptions += [
+        "values >= 2^31 are one symbolic bound 'beyond the end' (objects are smaller); >= 2^63 is malformed",
+        "multi-range headers: 416 or 501 (a clean refusal); whitespace variants: the correct 206 or 416; suffix 0 not generated",
+    ]
+    return rep
+
+
+def c17(tier, seed, work):
+    rep = Report("C17", tier, seed)
+    length = 6 if tier == "thorough" else 5
+    # every string over {a,z,0,9,-,.,A,_} up to `length`, plus lengths 1..70 and IP-like names
+    tour_stage(rep, work, "names", "MC_Names", dict(Alphabet={97, 122, 48, 57, 45, 46, 65, 95}, L=length, Extra=True),
+               ["mem", "bolt", "multimem"], view=None, emit=None, invariants=["EmitInv", "NameRule"], tlc_workers=8,
+               timeout=3000, heap="8g")
+    rep.assumptions += [
+        "dotted-decimal names that are not canonical IPv4 addresses (octet > 255, leading zeros) may be accepted or refused",
+    ]
+    return rep
+
+
+ROUTE_OPTS = {"path": "", "host": "hostbucket", "base1": "bases=s3.test", "base2": "bases=s3.test+s3.alt:9000",
+              "basedots": "bases=.s3.test.", "hostandbase": "hostbucket,bases=s3.alt:9000"}
+ALL_OPS = CORE_OPS | {"GetLocation", "PostObject"}
+
+
+def c16(tier, seed, work):
+    rep = Report("C16", tier, seed)
+    # (1) resolution table: every Host x path of the table under every option combination
+    for name, opts in ROUTE_OPTS.items():
+        # (the setup writes are addressed in the style the configuration understands)
+        addr = {"host": "host:!s3.test", "hostandbase": "host:s3.alt:9000"}.get(name, "")
+        tour_stage(rep, work, "resolve-" + name, "MC_Route", dict(CfgName=name), ["mem", "bolt"], opts=opts, addr=addr,
+                   view=None, emit=None, invariants=["EmitInv", "Equiv"])
+    # (2) every operation and sub-resource: the store, versioning and multipart tours replayed with
+    # virtual-host addressing (and with extra slashes), expecting exactly the path-style replies
+    modes = [("hostbucket", "host:!s3.test"), ("bases=s3.test+s3.alt:9000", "host:s3.alt:9000"),
+             ("bases=s3.test", "host:s3.test"), ("", "slashes"), ("bases=s3.test", "slashes")]
+    for opts, addr in modes:
+        tag = (opts or "path") + "/" + addr
+        tour_stage(rep, work, "store " + tag, "MC_Store",
+                   store_consts(KeySetName="nest2", Bodies={"x1"}, OpNames=ALL_OPS, Ghosts=False),
+                   ["mem", "multimem"], opts=opts, addr=addr, small=True)
+        tour_stage(rep, work, "versions " + tag, "MC_Store",
+                   store_consts(Buckets={"bkt1"}, KeySetName="a", CfgName="mem", Bodies={"x1"}, OpNames=VER_OPS,
+                                MaxVids=2, Ghosts=False), ["mem"], opts=opts, addr=addr, small=True)
+        tour_stage(rep, work, "multipart " + tag, "MC_Store",
+                   store_consts(Buckets={"bkt1"}, KeySetName="a", Bodies={"x1"}, PartBodies={"p1"}, MaxUploads=1,
+                                MaxList=2, Ghosts=False, OpNames=MP_OPS), ["mem"], opts=opts, addr=addr, small=True)
+    rep.assumptions += [
+        "host-style requests are derived from the path-style request of each tour step: Host=<bucket>.<base>, path=/<key>",
+        "ListBuckets has no virtual-host form; it is sent to the base host itself",
+        "raw (Host, path) probes run on the key-value backends, where keys are opaque",
+    ]
+    return rep
+
+
+PLANS = {"C11": c11, "C16": c16, "C17": c17, "C02": c02, "C05": c05, "C03": c03, "C04": c04, "C13": c13, "C06": c06, "C14": c14}
